@@ -284,7 +284,7 @@ def run_watch_scenario(s):
 
     def settle(_d):
         # wait (bounded) for the last change to arrive in c.out, then for one idle second
-        deadline = time.time() + 8
+        deadline = time.time() + 20
         while time.time() < deadline:
             if read("c.out") == "v%d" % state["ver"]:
                 state["converged"] = True
@@ -297,7 +297,7 @@ def run_watch_scenario(s):
 
     acts.append((t + 0.3, settle))
     acts.append((t + 0.35, "TERM"))
-    r = run_zinoma(d, ["--watch", "t2"], trace, timeout=25, actions=acts)
+    r = run_zinoma(d, ["--watch", "t2"], trace, timeout=45, actions=acts)
     lines = [l for l in open(trace).read().splitlines() if l.strip()] if os.path.exists(trace) else []
     raw = [json.dumps({"ev": "cfg", "t": s["cfg"]["id"], "cfg": s["cfg"]})] + lines
     if r["signalled"]:
